@@ -12,7 +12,8 @@ Structure (DESIGN.md 4, C05):
   K    Auth.cancel / create_task / __init__: the task working for an auth object is the one cancel() stops
   scan: writers of the auth state and callers of send_userauth_success (extra_checks)
 
-Genuine defects of the pinned tree that make obligations fail (replayed natively, notes/findings/c05_*.py):
+Defects these obligations found on the pinned tree (replayed natively, notes/findings/c05_*.py); all three are
+repaired in /repo (ca6432f, a7d1d73), so every obligation is proved on the current tree:
   F7   _process_userauth_request#post(class-inv-J), #post(guarantee-live-auth-keeps-its-user)
   F7b  _finish_userauth#pre-at-call(self.send_userauth_success:no-auth-required-was-decided-for-the-current-user)
   F9   _finish_userauth#pre-at-call(lookup_server_auth:restrictions-are-pristine-when-an-attempt-starts)
@@ -117,13 +118,14 @@ get_key_option = Spec(
 # Ghost view of the connection as seen from an auth object A (class 'Conn'):
 #   _username, _auth_complete     real fields of the connection
 #   ghost_auth_is_self            conn._auth is A
-#   ghost_opts_ok                 the restrictions stored on the connection (_key_options/_cert_options) are the
-#                                 defaults or were stored by A's own credential check
-# B(A)  :=  conn._auth_complete  or  (conn._auth is A  and  conn._username == A._username  and  opts_ok)
+# B(A)  :=  conn._auth_complete  or  (conn._auth is A  and  conn._username == A._username)
+# (The restrictions half of the property is NOT part of B.  It is carried on the connection side: pristine when an
+#  attempt starts (_finish_userauth pre-at-call), written only by the verified look-ups, which store exactly the
+#  accepted entry's / certificate's options; writers and callers of those look-ups are pinned by the scan.)
 # B is the *rely* of an auth task at its awaits (if the task resumes it was not cancelled); the matching
 # *guarantee* is proved on the connection-side writers of _username / _auth (see below, "guarantee").
 # ====================================================================================================
-CONN_VIEW = {'_username': 'str', '_auth_complete': 'bool', 'ghost_auth_is_self': 'bool', 'ghost_opts_ok': 'bool'}
+CONN_VIEW = {'_username': 'str', '_auth_complete': 'bool', 'ghost_auth_is_self': 'bool'}
 AUTH_FIELDS = {'_conn': 'obj:Conn', '_coro': 'opt[obj:Task]', '_username': 'str', '_method': 'bytes'}
 AUTH_CLASSES = dict({'ServerAuth': AUTH_FIELDS, 'Conn': CONN_VIEW, 'Task': {}}, **PACKET_CLASSES)
 
@@ -137,7 +139,7 @@ def bound(ex, st):
     conn = _conn_of(ex, st)
     g = lambda f: ex.get_field(st, conn, f).z
     me = ex.get_field(st, ex.self_ref, '_username').z
-    return z3.Or(g('_auth_complete'), z3.And(g('ghost_auth_is_self'), g('_username') == me, g('ghost_opts_ok')))
+    return z3.Or(g('_auth_complete'), z3.And(g('ghost_auth_is_self'), g('_username') == me))
 
 
 def not_cancelled(ex, st):
@@ -158,7 +160,7 @@ def rely_outs(cx, ret, event, exc=None):
     new = {f: cx.fresh(t, 'env_' + f) for f, t in CONN_VIEW.items()}
     me = ex.get_field(st, ex.self_ref, '_username').z
     after = z3.Or(new['_auth_complete'].z,
-                  z3.And(new['ghost_auth_is_self'].z, new['_username'].z == me, new['ghost_opts_ok'].z))
+                  z3.And(new['ghost_auth_is_self'].z, new['_username'].z == me))
     o = Out(ret=ret, exc=exc, osets=[(conn, f, v) for f, v in new.items()],
             assume=[z3.Implies(before, after)], event=event)
     o.native_osets = True
@@ -170,6 +172,8 @@ def awaited_validator(name, typ='any', raises=()):
     def stub(cx):
         v = cx.fresh(typ, name)
         outs = [rely_outs(cx, v, (name, (tuple(cx.args), v)))]
+        # an application callback may also raise anything: the task dies (reported by _reap_task), nothing is granted
+        outs.append(rely_outs(cx, VNone, (name + '!raise', (tuple(cx.args), None)), exc=VExc('Exception')))
         for r in raises:
             e = r(cx) if callable(r) else VExc(r)
             outs.append(rely_outs(cx, VNone, (name + '!raise', (tuple(cx.args), e)), exc=e))
@@ -274,7 +278,8 @@ def auth_spec(qualname, cred, stubs, params=None, raises=None, extra_ensures=(),
         ensures=[('one-response', one_response), ('valid-credential-is-admitted', admitted(cred))] +
         list(extra_ensures),
         always=[('response-is-last', response_is_last)],
-        raises=raises if raises is not None else {'ProtocolError': no_success, 'PacketDecodeError': no_success},
+        raises=dict(raises if raises is not None else {'ProtocolError': no_success, 'PacketDecodeError': no_success},
+                    Exception=no_success),
         **kw)
 
 
@@ -388,7 +393,7 @@ kbdint_send_challenge_tuple.__class__ = type('CaseSpec', (Spec,), {
 #   connection leaves a live current auth object current and bound to the same user, unless it cancels it or
 #   authentication completes.
 # ====================================================================================================
-AUTHOBJ = {'_username': 'str', '_coro': 'opt[obj:Task]'}
+AUTHOBJ = {'_username': 'str', '_method': 'bytes', '_coro': 'opt[obj:Task]'}
 SRV_FIELDS = dict(SRV_OPT_FIELDS, **{
     '_is_client': 'bool', '_username': 'str', '_auth': 'opt[obj:Auth]', '_auth_complete': 'bool',
     '_auth_final': 'bool', '_auth_in_progress': 'bool', '_owner': 'opt[obj:Owner]',
@@ -574,7 +579,9 @@ def is_pristine(ex, st):
 
 
 def fu_lookup_stub(cx):
-    """lookup_server_auth(conn, username, method, packet): contract proved on auth.lookup_server_auth below"""
+    """lookup_server_auth(conn, username, method, packet) in _finish_userauth: three obligations of the caller at
+    this point, then the callee's verified contract (auth.lookup_server_auth below: state clause
+    created-object-is-bound-and-live)"""
     ex, st = cx.ex, cx.st
     me = ex.self_ref
     isnone, a = opt_parts(ex.get_field(st, me, '_auth'))
@@ -582,14 +589,15 @@ def fu_lookup_stub(cx):
                z3.BoolVal(True) if a is None else z3.Or(isnone, auth_cancelled(ex, st, a)))
     cx.require('new-attempt-is-for-the-current-user', cx.args[1].z == ex.get_field(st, me, '_username').z)
     cx.require('restrictions-are-pristine-when-an-attempt-starts', is_pristine(ex, st))
-    r = cx.fresh('opt[obj:Auth]', 'new_auth')
-    rn, ra = opt_parts(r)
-    assume = [z3.Implies(z3.Not(rn), z3.And(ex.get_field(st, ra, '_username').z == cx.args[1].z,
-                                            z3.Not(auth_cancelled(ex, st, ra))))]
-    return [Out(ret=r, assume=assume, event=('lookup_server_auth', (tuple(cx.args), r)))]
+    outs = contract_stub(lambda: lookup_server_auth)(cx)
+    for o in outs:
+        if o.exc is None:
+            o.event = ('lookup_server_auth', (tuple(cx.args), o.ret))
+    return outs
 
 
 fu_lookup_stub.modifies = ()
+fu_lookup_stub.spec_getter = lambda: lookup_server_auth
 
 
 def auth_cancel_stub(cx):
@@ -603,7 +611,8 @@ auth_cancel_stub.modifies = ()
 
 def fu_success_stub(cx):
     """send_userauth_success() from _finish_userauth: 'no authentication required' - only legitimate when the
-    application said so (begin_auth false) for the user that is authenticated now"""
+    application said so (begin_auth false) for the user that is authenticated now; the effect is the callee's
+    verified contract (state clauses authenticated-state / class-inv-J; its awaits are covered by its modifies)"""
     ex, st = cx.ex, cx.st
     evs = [e for e in st.events if e[0] == 'begin_auth']
     ok = z3.BoolVal(False)
@@ -612,12 +621,15 @@ def fu_success_stub(cx):
         ok = z3.And(args[0].z == ex.get_field(st, ex.self_ref, '_username').z,
                     z3.Not(ex.truthy(st, st.env['result'])))
     cx.require('no-auth-required-was-decided-for-the-current-user', ok)
-    o = conn_rely(cx, VNone, event=('send_userauth_success', ()))
-    o.assume.append(o.sets['_auth_complete'].z)
-    return [o]
+    outs = contract_stub(lambda: send_userauth_success)(cx)
+    for o in outs:
+        if o.exc is None:
+            o.event = ('send_userauth_success', ())
+    return outs
 
 
 fu_success_stub.modifies = tuple(CONN_ENV)
+fu_success_stub.spec_getter = lambda: send_userauth_success
 
 
 def fu_no_grant(c):
@@ -633,10 +645,19 @@ def fu_new_attempt_current(c):
     return c.eq(c.newv('_auth'), r)
 
 
+SUCC_FIELDS = dict(SRV_FIELDS, **{
+    '_next_service': 'opt[bytes]', '_acceptor': 'opt[opaque:Acceptor]', '_error_handler': 'opt[opaque:Handler]',
+    '_wait': 'opt[str]', '_waiter': 'opt[obj:Future]',
+})
+SUCC_CLASSES = dict(SRV_CLASSES, SSHConnection=SUCC_FIELDS, Future={})
+
+
+SUCC_CLASSES_LAZY = SUCC_CLASSES
+
 finish_userauth = Spec(
     PROP, 'connection', 'SSHConnection._finish_userauth', self_class='SSHConnection',
     params=dict(begin_auth='bool', method='bytes', packet='obj:SSHPacket'),
-    classes=SRV_CLASSES, truthy=PACKET_TRUTHY,
+    classes=SUCC_CLASSES_LAZY, truthy=PACKET_TRUTHY,
     stubs={'SSHConnection.reload_config': conn_await('reload_config'),
            'Owner.begin_auth': owner_call('begin_auth'),
            'await result': conn_await('await_result', 'any'),
@@ -650,13 +671,6 @@ finish_userauth = Spec(
 
 
 # ---- send_userauth_success / send_userauth_failure
-SUCC_FIELDS = dict(SRV_FIELDS, **{
-    '_next_service': 'opt[bytes]', '_acceptor': 'opt[opaque:Acceptor]', '_error_handler': 'opt[opaque:Handler]',
-    '_wait': 'opt[str]', '_waiter': 'opt[obj:Future]',
-})
-SUCC_CLASSES = dict(SRV_CLASSES, SSHConnection=SUCC_FIELDS, Future={})
-
-
 def ev_stub(name, typ='none'):
     def stub(cx):
         v = cx.fresh(typ, name) if typ != 'none' else VNone
@@ -683,11 +697,15 @@ def succ_grant(c):
 
 
 def succ_state(c):
+    """STATE clause (usable by callers): authenticated, and the user cannot have changed"""
+    return z3.And(c.new('_auth_complete'), c.new('_username') == c.old('_username'))
+
+
+def succ_attempt_closed(c):
     n, _ = opt_parts(c.newv('_auth'))
     awaited = any(e[0].startswith('await') for e in c.events())
     # (after an await a request queued before the grant may have installed a new auth object: J still holds)
-    return z3.And(c.new('_auth_complete'), c.new('_username') == c.old('_username'),
-                  z3.BoolVal(True) if awaited else n)
+    return z3.BoolVal(True) if awaited else n
 
 
 send_userauth_success = Spec(
@@ -702,7 +720,10 @@ send_userauth_success = Spec(
            'SSHConnection.send_server_host_keys': ev_stub('hostkeys')},
     requires=J_old,
     ensures=[('grant-is-for-the-current-user', succ_grant), ('authenticated-state', succ_state),
-             ('class-inv-J', J_new)])
+             ('attempt-closed', succ_attempt_closed), ('class-inv-J', J_new),
+             ('guarantee-live-auth-keeps-its-user', guarantee)],
+    modifies=['_auth', '_auth_in_progress', '_auth_complete', '_next_service', '_acceptor', '_error_handler',
+              '_wait'] + [f for f in CONN_ENV if f not in ('_auth', '_auth_complete')])
 
 
 def fail_post(c):
@@ -782,16 +803,6 @@ VPK_FIELDS = dict(SRV_OPT_FIELDS, **{
 VPK_CLASSES = {'SSHServerConnection': VPK_FIELDS, 'Key': {}, 'Owner': {}, 'AuthKeys': {}}
 
 
-def key_lookup_stub(name):
-    """assumed contract of _validate_client_certificate / _validate_client_public_key as callees: Optional[key];
-    (their own contracts are below)"""
-    def stub(cx):
-        k = cx.fresh('opt[obj:Key]', name)
-        return [Out(ret=k, event=(name, (tuple(cx.args), k)))]
-    stub.modifies = ('_key_options', '_cert_options')
-    return stub
-
-
 def key_verify_stub(cx):
     r = cx.fresh('bool', 'verified')
     return [Out(ret=r, event=('verify', (cx.recv, tuple(cx.args), r)))]
@@ -806,7 +817,9 @@ def vpk_post(c):
     from pyvc.builtins_model import be
     r = c.result_v
     res = c.truthy(r)
-    lookups = [e for e in c.events() if e[0] in ('lookup_cert', 'lookup_key')]
+    lookups = [(x['key'], (x['args'], x['ret'])) for x in c.calls()
+               if x['key'] in ('self._validate_client_certificate', 'self._validate_client_public_key')
+               and x.get('exc') is None]
     conj = []
     # every look-up is for the user and key blob of this call
     for _n, (args, _k) in lookups:
@@ -832,10 +845,13 @@ validate_public_key = Spec(
     PROP, 'connection', 'SSHServerConnection.validate_public_key', self_class='SSHServerConnection',
     params=dict(username='str', key_data='bytes', msg='bytes', signature='bytes'),
     classes=VPK_CLASSES,
-    stubs={'self._validate_client_certificate': key_lookup_stub('lookup_cert'),
-           'self._validate_client_public_key': key_lookup_stub('lookup_key'),
+    # the two look-ups are verified below; here they are used through their contracts (requires / modifies / raises)
+    stubs={'self._validate_client_certificate': contract_stub(lambda: validate_client_certificate),
+           'self._validate_client_public_key': contract_stub(lambda: validate_client_public_key),
            'Key.verify': key_verify_stub},
-    ensures=[('signature-by-the-authorised-key-over-session-id-and-request', vpk_post)])
+    ensures=[('signature-by-the-authorised-key-over-session-id-and-request', vpk_post)],
+    # a connection torn down during a look-up (_owner None) / missing X.509 configuration: nothing is granted
+    raises={'AttributeError': True, 'AssertionError': True})
 
 
 def decode_key_stub(cx):
@@ -930,12 +946,13 @@ validate_client_public_key = Spec(
            'Key.set_touch_required': ev_stub('set_touch_required')},
     ensures=[('key-is-authorised-for-this-user-and-its-restrictions-stored', vck_post),
              ('rejected-key-stores-no-restrictions', vck_rejected)],
+    returns='opt[obj:Key]', modifies=['_key_options', '_cert_options'],
     raises={'AttributeError': True})
 
 
 # ---- OpenSSH user certificates
 CERT_CLASSES = dict(VPK_CLASSES, Cert={'signing_key': 'obj:Key', 'principals': 'seq[str]', 'options': OPTS,
-                                       'key': 'obj:Key'})
+                                       'key': 'obj:Key', 'is_x509_chain': 'bool'})
 
 
 def cert_validate_stub(cx):
@@ -1036,7 +1053,107 @@ validate_openssh_certificate = Spec(
            'Key.set_touch_required': ev_stub('set_touch_required')},
     ensures=[('certificate-is-authorised-for-this-user-and-its-restrictions-stored', voc_post),
              ('rejected-certificate-stores-no-certificate-restrictions', voc_rejected)],
+    returns='opt[obj:Key]', modifies=['_key_options', '_cert_options'],
     raises={'AttributeError': True})
+
+
+# ---- X.509 certificate chains (chain validation itself is an abstract object, as in C04)
+X509_FIELDS = dict(VPK_FIELDS, _x509_trusted_certs='opt[seq[opaque:X509Cert]]',
+                   _x509_trusted_cert_paths='seq[str]', _x509_purposes='any')
+X509_CLASSES = dict(CERT_CLASSES, SSHServerConnection=X509_FIELDS)
+
+
+def validate_chain_stub(cx):
+    ev = ('validate_chain', (tuple(cx.args), dict(cx.kwargs)))
+    return [Out(event=ev), Out(exc=VExc('ValueError'), event=ev)]
+
+
+validate_chain_stub.modifies = ()
+
+
+def vx_post(c):
+    """the chain's key is returned only if an authorized_keys X.509 entry matched this certificate for this peer,
+    the chain validated for THIS user (or for the entry's principals), and the entry's options are the ones stored"""
+    n, k = opt_parts(c.result_v)
+    if k is None:
+        return z3.BoolVal(True)
+    cert = c.argv('cert')
+    look = c.events('authkeys_validate_x509')
+    vc = c.events('validate_chain')
+    if not look or not vc:
+        return n
+    largs, _kw, lret = look[0][1]
+    mn, mv = opt_parts(lret.items[0])
+    ko = c.ex.deref(c.new_state, c.newv('_key_options'))
+    pkey = z3.StringVal('principals')
+    has_pr = z3.And(z3.Select(ko.dom, pkey), truthy_any(z3.Select(ko.val, pkey))) if isinstance(ko, VMap) \
+        else z3.BoolVal(False)
+    vargs, vkw = vc[0][1]
+    up = vkw.get('user_principal')
+    return z3.Implies(z3.Not(n), z3.And(
+        z3.BoolVal(isinstance(k, VRef) and k.addr == c.ex.get_field(c.old_state, cert, 'key').addr),
+        z3.BoolVal(largs[0].addr == cert.addr), largs[1].z == c.old('_peer_host'), largs[2].z == c.old('_peer_addr'),
+        z3.Not(mn), options_equal(c, c.newv('_key_options'), mv),
+        up.z == z3.If(has_pr, z3.StringVal(''), c.arg('username')) if up is not None else z3.BoolVal(False)))
+
+
+validate_x509_certificate_chain = Spec(
+    PROP, 'connection', 'SSHServerConnection._validate_x509_certificate_chain', self_class='SSHServerConnection',
+    params=dict(username='str', cert='obj:Cert'), classes=X509_CLASSES,
+    inline={'self.get_key_option': ('connection', 'SSHServerConnection.get_key_option')},
+    stubs={'AuthKeys.validate_x509': ev_stub('authkeys_validate_x509', 'tuple[opt[' + OPTS + '],opt[opaque:X509Cert]]'),
+           'Cert.validate_chain': validate_chain_stub, 'set': ev_stub('empty_set', 'any')},
+    ensures=[('chain-is-authorised-for-this-user-and-its-restrictions-stored', vx_post)],
+    returns='opt[obj:Key]', modifies=['_key_options', '_cert_options'],
+    raises={'AssertionError': True})
+
+
+# ---- the dispatcher: which look-up sees which user and which certificate
+def decode_cert_stub(cx):
+    cert = cx.fresh('obj:Cert', 'decoded_cert')
+    return [Out(ret=cert, event=('decode_cert', (tuple(cx.args), cert))), Out(exc=VExc('KeyImportError'))]
+
+
+decode_cert_stub.modifies = ()
+
+
+def same_opt_ref(a, b):
+    """two Optional[object] values denote the same thing"""
+    if a is b:
+        return z3.BoolVal(True)
+    an, av = opt_parts(a)
+    bn, bv = opt_parts(b)
+    if av is None or bv is None:
+        return z3.And(an, bn)
+    return z3.And(an == bn, z3.Or(an, z3.BoolVal(av.addr == bv.addr)))
+
+
+def vcc_post(c):
+    """a key comes only from the verified look-up that fits the certificate kind, asked about THIS user and the
+    certificate decoded from THIS key blob"""
+    n, k = opt_parts(c.result_v)
+    dec = c.events('decode_cert')
+    calls = [x for x in c.calls() if x['key'] in ('self._validate_openssh_certificate',
+                                                  'self._validate_x509_certificate_chain')]
+    if not dec or len(calls) != 1:
+        return n
+    dargs, cert = dec[0][1]
+    call = calls[0]
+    is_x = c.ex.get_field(c.old_state if cert.addr in c.old_state.heap else c.new_state, cert, 'is_x509_chain').z
+    right = is_x if call['key'].endswith('x509_certificate_chain') else z3.Not(is_x)
+    return z3.And(dargs[0].z == c.arg('key_data'), right, call['args'][0].z == c.arg('username'),
+                  z3.BoolVal(call['args'][1].addr == cert.addr), same_opt_ref(c.result_v, call['ret']))
+
+
+validate_client_certificate = Spec(
+    PROP, 'connection', 'SSHServerConnection._validate_client_certificate', self_class='SSHServerConnection',
+    params=dict(username='str', key_data='bytes'), classes=X509_CLASSES,
+    stubs={'decode_ssh_certificate': decode_cert_stub,
+           'self._validate_openssh_certificate': contract_stub(lambda: validate_openssh_certificate),
+           'self._validate_x509_certificate_chain': contract_stub(lambda: validate_x509_certificate_chain)},
+    ensures=[('key-only-from-the-verified-look-up-for-this-user-and-certificate', vcc_post)],
+    returns='opt[obj:Key]', modifies=['_key_options', '_cert_options'],
+    raises={'AttributeError': True, 'AssertionError': True})
 
 
 # ====================================================================================================
@@ -1204,7 +1321,7 @@ def new_auth_stub(cx):
     """handler(conn, username, method, packet): constructor of a ServerAuth subclass; contract of
     ServerAuth.__init__ proved above (bound-to-user-and-task-recorded); subclasses only add a GSS context"""
     ex, st = cx.ex, cx.st
-    a = cx.fresh('obj:NewAuth', 'auth')
+    a = cx.fresh('obj:Auth', 'auth')
     g = lambda f: ex.get_field(st, a, f)
     cn, _ = opt_parts(g('_coro'))
     return [Out(ret=a, assume=[g('_username').z == cx.args[1].z, g('_method').z == cx.args[2].z, z3.Not(cn)],
@@ -1231,17 +1348,30 @@ def lookup_post(c):
                   args[1].z == c.arg('username'), args[2].z == c.arg('method'))
 
 
+def lookup_state_post(c):
+    """STATE clause (usable by callers through contract_stub): a returned object is for exactly the user and method
+    passed in and has a live task"""
+    n, a = opt_parts(c.result_v)
+    if a is None:
+        return z3.BoolVal(True)
+    g = lambda f: c.ex.get_field(c.new_state, a, f)
+    cn, _ = opt_parts(g('_coro'))
+    return z3.Implies(z3.Not(n), z3.And(g('_username').z == c.arg('username'), g('_method').z == c.arg('method'),
+                                        z3.Not(cn)))
+
+
 lookup_server_auth = Spec(
     PROP, 'auth', 'lookup_server_auth',
     params=dict(conn='obj:Conn', username='str', method='bytes', packet='obj:SSHPacket'),
-    classes=dict({'Conn': {}, 'HandlerClass': {}, 'Task': {},
-                  'NewAuth': {'_username': 'str', '_method': 'bytes', '_coro': 'opt[obj:Task]'}}, **PACKET_CLASSES),
+    classes=dict({'Conn': {}, 'HandlerClass': {}, 'Task': {}, 'Auth': AUTHOBJ}, **PACKET_CLASSES),
+    returns='opt[obj:Auth]',
     globals={'_server_auth_handlers': VTag('dict:_server_auth_handlers')},
     stubs={'_server_auth_handlers.get': ev_stub('handler_lookup', 'opt[obj:HandlerClass]'),
            'HandlerClass.supported': ev_stub('supported', 'bool'),
            'handler': new_auth_stub,
            'Conn.send_userauth_failure': ev_stub('send_userauth_failure')},
-    ensures=[('auth-object-only-for-supported-method-and-bound-to-the-request', lookup_post)])
+    ensures=[('auth-object-only-for-supported-method-and-bound-to-the-request', lookup_post),
+             ('created-object-is-bound-and-live', lookup_state_post)])
 
 WRAP_CLASSES = {'ServerAuth': {'_conn': 'obj:Conn'}, 'Conn': {}}
 server_auth_send_success = Spec(
@@ -1547,5 +1677,155 @@ ASSUMPTIONS += [
     'object (_finish_userauth#post(new-attempt-is-current); dispatch gate of C06) and it was created for '
     'conn._username with pristine restrictions (pre-at-call obligations at lookup_server_auth in _finish_userauth)',
     'ServerAuth subclasses are verified against a ghost view of the connection (class Conn: _username, '
-    '_auth_complete, ghost_auth_is_self, ghost_opts_ok) - the view is tied to the real fields by J/G above',
+    '_auth_complete, ghost_auth_is_self) - the view is tied to the real fields by J/G above',
 ]
+
+
+# ====================================================================================================
+# authorized_keys matching (anchor file auth_keys.py): the options _validate_client_public_key /
+# _validate_openssh_certificate store are those of the FIRST entry whose key equals the presented key (CA key for
+# certificates) and whose from= / principals= restrictions accept this client.  Contract written for C17
+# (contracts/c17.py: validate_inv / validate_post, match_options an oracle); verified here again under C05.
+# ====================================================================================================
+from . import c17 as C17
+
+authorized_keys_validate = Spec(
+    PROP, 'auth_keys', 'SSHAuthorizedKeys.validate', self_class='SSHAuthorizedKeys',
+    params=dict(C17.validate.params),
+    classes={'SSHAuthorizedKeys': {'_user_entries': 'seq[opaque:Entry]', '_ca_entries': 'seq[opaque:Entry]'}},
+    stubs={'entry.match_options': C17.entry_match_options_stub},
+    loops={1: LoopSpec(invariant=C17.validate_inv)},
+    ensures=[('first-match(key-equal-and-options-accept)', C17.validate_post)])
+authorized_keys_validate.opaque_attrs = dict(C17.validate.opaque_attrs)
+authorized_keys_validate.no_replay = True
+
+
+# ====================================================================================================
+# channel.py - where the stored restrictions are enforced ("the restrictions attached to the accepted credential are
+# the ones enforced afterwards"): pty permission, forced command precedence, environment= options.
+# The look-up functions themselves (get/check_key/certificate_*) are the decision tables at the top of this file.
+# ====================================================================================================
+def conn_option_stub(name, typ):
+    def stub(cx):
+        v = cx.fresh(typ, name)
+        return [Out(ret=v, event=(name, (tuple(cx.args), v)))]
+    stub.modifies = ()
+    return stub
+
+
+SCH_FIELDS = {'_conn': 'obj:Conn', '_session': 'obj:Session', '_allow_pty': 'bool', '_line_editor': 'bool',
+              '_term_type': 'opt[str]', '_command': 'opt[str]', '_subsystem': 'opt[str]'}
+SCH_CLASSES = dict({'SSHServerChannel': SCH_FIELDS, 'Conn': {}, 'Session': {}}, **PACKET_CLASSES)
+
+
+def ss_post(c):
+    """sshd(8) / PROTOCOL.certkeys: a certificate's force-command wins over the authorized_keys command= option,
+    which wins over what the client asked for; a forced command always results in exec of exactly that command"""
+    co = c.events('cert_option')
+    ko = c.events('key_option')
+    ex_ = c.events('exec_requested')
+    other = c.events('subsystem_requested') + c.events('shell_requested')
+    if len(co) != 1:
+        return z3.BoolVal(False)
+    cargs, cret = co[0][1]
+    conj = [cargs[0].z == z3.StringVal('force-command')]
+    cn, cv = opt_parts(cret)
+    forced_n, forced_v = cn, cv.z
+    if ko:
+        kargs, kret = ko[0][1]
+        kn, kv = opt_parts(kret)
+        conj += [kargs[0].z == z3.StringVal('command'), cn]       # consulted only when the certificate forces nothing
+        forced_n, forced_v = z3.And(cn, kn), z3.If(cn, kv.z, cv.z)
+    else:
+        conj.append(z3.Not(cn))
+    if ex_:
+        (eargs, _kw, _r) = ex_[0][1]
+        ran = eargs[0]
+        rn, rv = opt_parts(ran)
+        requested_n, requested_v = opt_parts(c.argv('command'))
+        conj += [z3.BoolVal(len(ex_) == 1 and not other), z3.Not(rn),
+                 z3.If(forced_n, z3.And(z3.Not(requested_n), rv.z == (requested_v.z if requested_v is not None
+                                                                    else z3.StringVal(''))),
+                       rv.z == forced_v),
+                 c.eq(c.newv('_command'), ran)]
+    else:
+        # no exec: only legal when nothing is forced and the client did not ask for a command
+        requested_n, _ = opt_parts(c.argv('command'))
+        conj += [forced_n, requested_n, z3.BoolVal(len(other) == 1)]
+    return z3.And(conj)
+
+
+start_session = Spec(
+    PROP, 'channel', 'SSHServerChannel._start_session', self_class='SSHServerChannel',
+    params=dict(command='opt[str]', subsystem='opt[str]'), classes=SCH_CLASSES,
+    stubs={'Conn.get_certificate_option': conn_option_stub('cert_option', 'opt[str]'),
+           'Conn.get_key_option': conn_option_stub('key_option', 'opt[str]'),
+           'Session.exec_requested': ev_stub('exec_requested', 'any'),
+           'Session.subsystem_requested': ev_stub('subsystem_requested', 'any'),
+           'Session.shell_requested': ev_stub('shell_requested', 'any')},
+    ensures=[('forced-command-precedence(certificate,authorized_keys,client)', ss_post)])
+
+
+def pty_post(c):
+    """a pseudo-terminal is handed out only if the server allows it AND the accepted key's entry does not say
+    no-pty AND the accepted certificate (if any) says permit-pty; denial is a plain False"""
+    kp = c.events('check_key_permission')
+    cp = c.events('check_certificate_permission')
+    asked = c.events('pty_requested')
+    ok = [c.old('_allow_pty')]
+    ok.append(z3.And(kp[0][1][0][0].z == z3.StringVal('pty'), c.truthy(kp[0][1][1])) if kp else z3.BoolVal(False))
+    ok.append(z3.And(cp[0][1][0][0].z == z3.StringVal('pty'), c.truthy(cp[0][1][1])) if cp else z3.BoolVal(False))
+    permitted = z3.And(ok)
+    conj = []
+    if asked:
+        conj.append(permitted)
+    if c.raised is None:
+        conj.append(z3.Implies(c.truthy(c.result_v), z3.And(permitted, z3.BoolVal(len(asked) == 1))))
+        conj.append(z3.Implies(z3.Not(permitted), c.eq(c.oldv('_term_type'), c.newv('_term_type'))))
+    return z3.And(conj) if conj else z3.BoolVal(True)
+
+
+_pty_loop = LoopSpec(invariant=lambda c: c.local('idx') >= 0)
+
+pty_req = Spec(
+    PROP, 'channel', 'SSHServerChannel._process_pty_req_request', self_class='SSHServerChannel',
+    params=dict(packet='obj:SSHPacket'),
+    classes=dict(SCH_CLASSES, SSHServerChannel=dict(SCH_FIELDS, _term_size='any', _term_modes='any')),
+    inline=dict(PACKET_INLINE), truthy=PACKET_TRUTHY,
+    local_types={'term_modes': 'dict[int,int]', 'name': 'str'},
+    stubs={'Conn.check_key_permission': conn_option_stub('check_key_permission', 'any'),
+           'Conn.check_certificate_permission': conn_option_stub('check_certificate_permission', 'any'),
+           '_pty_mode_names.get': ev_stub('mode_name', 'str'),
+           'Session.pty_requested': ev_stub('pty_requested', 'any')},
+    globals={'_pty_mode_names': VTag('dict:_pty_mode_names')},
+    loops={1: _pty_loop},
+    requires=lambda c: packet_wf(c, c.argv('packet')),
+    always=[('pty-only-when-server-key-and-certificate-permit', pty_post)],
+    raises={'ProtocolError': True, 'PacketDecodeError': True})
+pty_req.feasible_timeout_ms = 400
+pty_req.crosscheck_limit = 4
+
+
+def sci_post(c):
+    """the session environment starts as the environment= options of the accepted authorized_keys entry"""
+    ko = c.events('key_option')
+    enc = c.events('encode_env')
+    mk = c.events('dict')
+    if len(ko) != 1 or len(enc) != 1 or len(mk) != 1:
+        return z3.BoolVal(False)
+    (kargs, kret), (eargs, _k1, eret), (dargs, _k2, dret) = ko[0][1], enc[0][1], mk[0][1]
+    return z3.And(kargs[0].z == z3.StringVal('environment'), z3.BoolVal(eargs[0] is kret),
+                  z3.BoolVal(dargs[0] is eret), z3.BoolVal(c.newv('_env') is dret),
+                  c.new('_allow_pty') == c.arg('allow_pty'))
+
+
+server_channel_init = Spec(
+    PROP, 'channel', 'SSHServerChannel.__init__', self_class='SSHServerChannel',
+    params=dict(conn='obj:Conn', loop='any', allow_pty='bool', line_editor='bool', line_echo='bool',
+                line_history='int', max_line_length='int', encoding='opt[str]', errors='str', window='int',
+                max_pktsize='int'),
+    classes=dict(SCH_CLASSES, SSHServerChannel=dict(SCH_FIELDS, _env='any')),
+    stubs={'super().__init__': ev_stub('channel_init'),
+           'Conn.get_key_option': conn_option_stub('key_option', 'any'),
+           'encode_env': ev_stub('encode_env', 'any'), 'dict': ev_stub('dict', 'any')},
+    ensures=[('environment-options-of-the-accepted-key-are-applied', sci_post)])
